@@ -183,8 +183,12 @@ def compare_step(o, m, aspects=("content", "mode", "owner")):
     """Differences between the real code and the model after one step (empty = agree).  Only the
     aspects the property at hand talks about are compared (C02: content; C13: mode and owner)."""
     diffs = []
-    if result_class(o) != m["result"]:
-        diffs.append("result impl=%s model=%s" % (result_class(o), m["result"]))
+    rc = result_class(o)
+    # an error whose TEXT is not recognised still agrees with any error of the model: the wording of
+    # messages is not part of any property, and the step at which the operation stopped is visible in
+    # the file's existence / content / mode / owner compared below
+    if rc != m["result"] and not (rc.startswith("other:") and m["result"] != "ok"):
+        diffs.append("result impl=%s model=%s" % (rc, m["result"]))
     a, f = o.get("after"), m.get("file")
     if (a is None) != (f is None):
         diffs.append("existence impl=%s model=%s" % (a is not None, f is not None))
